@@ -7,8 +7,8 @@
                           renderdirstart, renderdirend, filenotfound
      protocols/gemini.py, spartan.py   renderobjinfo, renderdirend
      protocols/base.py    writedir, renderabstract
-     protocols/gopherp.py getblock (the extended-attribute branch)
      handlers/url.py      HTMLURLHandler.write
+   (Gopher+ attribute blocks: Model/GopherPlus.v.)
    Text is `str` (code points); the wire bytes are its UTF-8/surrogateescape
    encoding.  `None` results stand for the exception Python raises at that point
    (AttributeError of `None.group`, UnicodeEncodeError of quote/encode, TypeError
@@ -407,13 +407,6 @@ Definition render_dir (p : lproto) (c : lcfg) (d : entry) (es : list entry) : op
       opt_app (option_map fst (render_rows unit (stateless (gem_renderobjinfo FSpartan (c_srvname c))) tt rows))
               (Some (gem_dirend (c_sp_footer c)))
   end.
-
-(* ---------- Gopher+ attribute block taken from the extended attributes ---------- *)
-(* gopherp.py getblock, first branch: "+NAME:\r\n" then " " + line + "\r\n" for
-   every line of the value *)
-Definition gplus_block_lines (value : str) : list str := map (fun x => 32 :: x) (splitlines value).
-Definition gplus_ea_block (name value : str) : str :=
-  [43] ++ name ++ lit ":" ++ CRLF ++ concat (map (fun l => l ++ CRLF) (gplus_block_lines value)).
 
 (* ---------- handlers/url.py HTMLURLHandler.write ---------- *)
 Definition redirect_url (sel : str) : str := if prefixb [SLASHc] sel then skipn 5 sel else skipn 4 sel.
